@@ -234,6 +234,13 @@ def run(ctx):
         ok = len(adds) == 1 and str(adds[0][1]["rv"]["op"]).startswith("Add") and A.in_cycle(ln, adds[0][0]) and (adds[0][1]["rv"]["b"].get("const") or {}).get("val") == 1
         it = [b for b, t in ln.calls() if A.cname(t) == "readable::Readable::iter"]
         ctx.ob("R-C01.9", ln, "len-counts-one-per-element", ok and bool(it), "len = number of elements of iter(): count += 1 per element" if (ok and it) else "Readable::len does not add exactly 1 per element of iter()")
+        if ok:
+            a = adds[0][1]["rv"]["a"]
+            cl = (a.get("copy") or a.get("move") or {}).get("l")
+            inits = [st["rv"]["a"]["const"].get("val") for b, blk in enumerate(ln.blocks) if not blk["cleanup"] and not A.in_cycle(ln, b)
+                     for st in blk["s"] if st["p"]["l"] == cl and not st["p"]["p"] and st["rv"]["k"] == "use" and "const" in st["rv"]["a"]]
+            ctx.ob("R-C01.9", ln, "len-starts-at-zero", inits == [0], "the count starts at 0" if inits == [0] else
+                   "the count Readable::len adds to starts at %s, not 0: every len() is off by that much" % inits)
 
     # ---- cross-cutting disciplines (rules/discipline.py)
     from .. import discipline as D
